@@ -44,6 +44,10 @@ def main():
     sh("git -C /repo worktree remove --force %s" % wt)
     rc, out = sh("%s/tools/mk_seed_worktree.sh %s" % (VERIF, wt))
     try:
+        # the seed directory is copied into the scratch worktree (demos may include sources relative to their own location)
+        vdir = os.path.basename(os.path.abspath(seed))
+        os.makedirs(os.path.join(wt, "seed"), exist_ok=True)
+        shutil.copytree(seed, os.path.join(wt, "seed", vdir), dirs_exist_ok=True)
         rc, out = sh("git apply %s" % patch, cwd=wt)
         meta["patch_applies"] = (rc == 0)
         if rc != 0:
@@ -63,7 +67,7 @@ def main():
             meta["demo_build_error"] = out[-800:]
         rc1, out1 = sh("cd %s && timeout 60 %s" % (wt, run_demo))
         meta["demo_with_change"] = {"exit": rc1, "tail": out1[-300:]}
-        sh("git checkout -- . && make >/dev/null 2>&1", cwd=wt)
+        sh("git checkout -- src include && make >/dev/null 2>&1", cwd=wt)
         rc, out = sh(demo_cmd, cwd=wt)
         rc0, out0 = sh("cd %s && timeout 60 %s" % (wt, run_demo))
         meta["demo_without_change"] = {"exit": rc0, "tail": out0[-300:]}
